@@ -220,6 +220,9 @@ func FindNode(n Node, path string) (Node, error) {
 
 		for _, i := range mod.Import {
 			if prefix == i.Prefix.Name {
+				if i.Module == nil {
+					return nil, fmt.Errorf("%s: module %s is not loaded", Source(i), i.Name)
+				}
 				n = i.Module
 				goto processing
 			}
